@@ -2,7 +2,8 @@
 
 PROP = {'modules': ['AmVerif.Props.C16'],
  'engines': [{'name': 'bytes', 'quick': 240, 'thorough': 6000},
-             {'name': 'src', 'tag': 'src-loaded-bytes', 'first': 201, 'quick': 2, 'thorough': 120, 'classes': ['short-read-zero-filled', 'truncated-member-read-as-prefix']}],
+             {'name': 'src', 'tag': 'src-loaded-bytes', 'first': 201, 'quick': 2, 'thorough': 120, 'classes': ['short-read-zero-filled', 'truncated-member-read-as-prefix']},
+             {'name': 'cell', 'tag': 'cell-drops', 'first': 3, 'quick': 6, 'thorough': 200, 'classes': ['drop-ledger']}],
  'rule': 'case 0: every construction path (From<&[u8]>, from_slice, From<Vec>, from_vec, Box, Cow borrowed/owned, FromIterator with exact and '
          'unknown size hint, BytesLoader borrowed/owned) x lengths {0,1,7,8,9,33} x capacity {0 / exact, len+1, len+24}; case 1: every order of '
          'dropping three handles living on three threads for 4 paths x 2 capacities; case 2: all 256 single bytes, lead x continuation boundary '
